@@ -131,6 +131,14 @@ CHECKS["C09"] = ("exploration",
     "rank-deficient leaves; sanitizer reports with an mlinsights frame count as violations.",
     "DESIGN.md §3 C09")
 
+CHECKS["C15"] = ("exploration",
+    "runtime differential monitors: wrapper output vs the wrapped model's own method on the same batch; wrapped "
+    "model vs directly fitted clone; fitted-state fingerprints of the original estimator before/after histories "
+    "of fit/transform for all trainable x copy_estimator combinations",
+    "13 wrapped model types x all their methods (+ default, + callable) on batches of 1, 2, n rows; stacks of 1-4 "
+    "mixed members; TransferTransformer histories of up to 6 steps with state fingerprints of the original.",
+    "DESIGN.md §3 C15")
+
 PENDING = {}
 
 
